@@ -268,6 +268,12 @@ fn shapes() -> Vec<(&'static str, &'static str)> {
         ("empty-key", "{'': x}"),
         ("cond-key", "{condition: x}"),
         ("quant-mixed", "{'all(f)': [x, 1]}"),
+        ("merge-map", "{'<<': {f: x}}"),
+        ("merge-seq", "{'<<': [{f: x}, {g: y}], f: z}"),
+        ("merge-scalar", "{'<<': 1}"),
+        ("control-chars", "\"a\\0b\\x7f\\u0085\\ufeff\""),
+        ("huge-int-string", "'=99999999999999999999999999'"),
+        ("huge-float-string", "'>=1e999.'"),
     ]
 }
 
@@ -492,6 +498,7 @@ pub fn run(tier: Tier) -> i32 {
         let total = texts.len() as u64;
         let texts = std::sync::Arc::new(texts);
         let t2 = texts.clone();
+        let base = base.clone();
         run_family(&mut rep, &watch, 5, total, move |i, st| {
             let c = t2[i as usize].clone();
             st.states += 1;
@@ -524,6 +531,96 @@ pub fn run(tier: Tier) -> i32 {
             bad("load-list", load_value(v), st);
         });
         rep.stats.count("multibyte_offset_strings", total);
+    }
+
+    // (3c) long and odd inputs (a handful, far beyond the exhaustive length bound)
+    {
+        let n = 4_000;
+        let odd: Vec<String> = vec![
+            "a".repeat(n),
+            format!("{}A", " ".repeat(n)),
+            format!("A{}", "\t".repeat(n)),
+            "1".repeat(400),
+            format!("1.{}", "1".repeat(400)),
+            "1.1.1".into(),
+            "..".into(),
+            "é".repeat(2_000),
+            format!("?{}", "a".repeat(2_000)),
+            format!("*{}*", "a".repeat(n)),
+            format!("i{}", "A".repeat(n)),
+            format!("?{}", "(a|b)*".repeat(200)),
+            format!("?{}", "a{1000}".repeat(20)),
+            format!("{}a", "(".repeat(64)),
+            format!("a{}", ")".repeat(2_000)),
+            "a\u{0}b".into(),
+            "\u{feff}A".into(),
+            "A\u{85}and B".into(),
+            "A\u{a0}and\u{a0}B".into(),
+            "all(\u{0})".into(),
+            format!("of(A, {})", "9".repeat(30)),
+            "of(A, -1)".into(),
+            "of(A, 1.5)".into(),
+            format!("A[{}]", "9".repeat(30)),
+            "a[18446744073709551616].b".into(),
+            "a[-0]".into(),
+            "a[+1]".into(),
+            "a[ 1]".into(),
+            "a[1".into(),
+            "a]1[".into(),
+            "[0]".into(),
+            ".a..b.".into(),
+        ];
+        for c in odd {
+            rep.stats.states += 1;
+            rep.stats.evaluations += 1;
+            rep.stats.transitions += 5;
+            let mut results: Vec<(&str, Result<bool, String>)> = vec![];
+            let c1 = c.clone();
+            results.push(("tokenise", catch(move || c1.tokenise().is_ok())));
+            let c2 = c.clone();
+            results.push(("into_identifier", catch(move || c2.into_identifier().is_ok())));
+            let mut v = base.clone();
+            set_condition(&mut v, &c);
+            results.push(("load-condition", load_value(v)));
+            let mut mm = serde_yaml::Mapping::new();
+            mm.insert(Y::String(c.clone()), Y::String("x".into()));
+            let y = Y::Mapping(mm);
+            results.push(("parse_identifier-key", catch(|| parse_identifier(&y).is_ok())));
+            let mut v = base.clone();
+            let mut mm = serde_yaml::Mapping::new();
+            mm.insert(Y::String("f".into()), Y::Sequence(vec![Y::String(c.clone()), Y::String("a*".into())]));
+            replace_at(&mut v, &["detection".to_string(), "A".to_string()], &Y::Mapping(mm));
+            // a loaded rule with the odd pattern is also matched once
+            let loaded = catch(move || match Rule::from_value(v) {
+                Ok(r) => {
+                    let d = crate::mdoc::MObj::new().with("f", crate::mdoc::s("aaa"));
+                    let _ = r.matches(&d);
+                    let _ = r.optimise(tau_engine::Optimisations::default()).matches(&d);
+                    true
+                }
+                Err(_) => false,
+            });
+            results.push(("load-list+match", loaded));
+            // and as a document key given to find()
+            let c3 = c.clone();
+            results.push((
+                "find",
+                catch(move || {
+                    let d = crate::mdoc::MObj::new().with("a", crate::mdoc::arr(vec![crate::mdoc::s("x")]));
+                    tau_engine::Object::find(&d, &c3).is_some()
+                }),
+            ));
+            for (layer, r) in results {
+                if let Err(msg) = r {
+                    let short: String = c.chars().take(40).collect();
+                    rep.stats.push_violation(Violation {
+                        signature: sig_of_panic(layer, &msg),
+                        witness: format!("{} on {:?}.. ({} bytes) panics: {}", layer, short, c.len(), msg),
+                        replay: json!({"kind":"tokenise","text":c}),
+                    });
+                }
+            }
+        }
     }
 
     // (4) YAML shapes at every node position (thorough: every pair of positions)
